@@ -51,6 +51,14 @@ fn main() {
                 n += 1;
             }
         }
+        "one" => {
+            // grid one <json {"d":[..],"amt":n}> <out>
+            let v: Value = serde_json::from_str(&args[2]).unwrap();
+            let d: Vec<u64> = v["d"].as_array().map(|a| a.iter().map(|x| x.as_u64().unwrap()).collect()).unwrap_or_default();
+            let mut out = std::io::BufWriter::new(std::fs::File::create(&args[3]).unwrap());
+            writeln!(out, "{}", run_case(&d, v["amt"].as_u64().unwrap())).unwrap();
+            n += 1;
+        }
         "random" => {
             let mut rng = Rng::new(args[2].parse().unwrap());
             let cnt: u64 = args[3].parse().unwrap();
